@@ -121,8 +121,11 @@ def make_cube(c, unc=True, ap=True, prefix='cube'):
     M, W = c.int(prefix + '_n_models'), c.int(prefix + '_n_wav')
     A = c.int(prefix + '_n_ap') if ap else 1
     c.assume([M >= 1, A >= 1, W >= 1])
+    dist = c.real(prefix + '_dist')
+    # object invariant: `_distance` is only ever stored by the validating setter (validate_scalar, 'positive': >= 0)
+    c.assume(dist >= 0)
     attrs = dict(_valid=None, _names=c.array(prefix + '_names', (M,), kind='int'),
-                 _distance=Quantity(c.real(prefix + '_dist'), U['kpc']),
+                 _distance=Quantity(dist, U['kpc']),
                  _wav=Quantity(c.array(prefix + '_wav', (W,)), U['micron']), _nu=None,
                  _apertures=Quantity(c.array(prefix + '_ap', (A,)), U['au']) if ap else None,
                  _val=Quantity(c.array(prefix + '_val', (M, A, W)), U['mJy']),
@@ -295,7 +298,10 @@ class FromSedCube(Contract):
 
     def requires(self, c, a):
         W = c.A(c.attr(a.cube, '_wav')).n
-        return {'index_in_range': band(a.wavelength_index >= 0, a.wavelength_index < W)}
+        # (validate_array ignores its `domain` argument, so a cube may hold a non-positive wavelength; the fluxes object's
+        # central_wavelength setter does check: ValueError then.  Stated as a precondition on the data.)
+        return {'index_in_range': band(a.wavelength_index >= 0, a.wavelength_index < W),
+                'that_wavelength_is_positive': c.A(c.attr(a.cube, '_wav'))[a.wavelength_index] > 0}
 
     def result(self, c, a):
         cube = a.cube
